@@ -71,6 +71,15 @@ def validate(d):
     return out
 
 
+def needs_compiled(d):
+    """meta.json may say that the change only shows in a mypyc build of the tree."""
+    try:
+        with open(os.path.join(d, "meta.json"), encoding="utf-8") as fh:
+            return bool(json.load(fh).get("needs_compiled"))
+    except (OSError, ValueError):
+        return False
+
+
 def detect(d, checks):
     tmp, dst = scratch()
     res = {}
@@ -80,7 +89,7 @@ def detect(d, checks):
             return {"error": "patch does not apply: " + msg[-200:]}
         for c in checks:
             env = dict(os.environ, VERIF_REPO=dst, VERIF_NO_EVIDENCE="1")
-            if not os.environ.get("VERIF_WITH_COMPILED"):
+            if not (os.environ.get("VERIF_WITH_COMPILED") or needs_compiled(d)):
                 env["VERIF_NO_COMPILED"] = "1"      # (a mypyc build per scratch copy costs ~25 s; opt in)
             r = subprocess.run([os.path.join(VERIF, "check"), c, "--tier", "quick"], env=env, capture_output=True,
                                text=True, cwd=VERIF)
